@@ -1,6 +1,7 @@
 // Native replay / witness driver for `http_serve::streaming_body` (see serve_witness.rs for the role of these files).
 // Scenario line: id|chunk_size|accept_encoding_hex or -|gzip_level|METHOD|op,op,...
-//   ops: W<hex> write, L<hex> write_all, F flush, P poll the body once, A abort, X drop the writer, R drop the body
+//   ops: W<hex> write, L<hex> write_all, F flush, P poll the body once (waker A), Q poll with a second waker B,
+//        A abort, X drop the writer, R drop the body; `!a/b` after a result = wake-ups of A / B caused by that op
 // Observation: id|status|hdrs|op results, comma separated:
 //   W -> w<k> or we ; L -> lo / le ; F -> fo / fe ; P -> <lower>:<upper|->:<eos>>D<hex> | E | N | P ; A -> a ; X -> x ; R -> r
 //   |panic hex or -
@@ -24,6 +25,10 @@ impl std::task::Wake for CountWaker {
     fn wake(self: Arc<Self>) {
         self.0.fetch_add(1, std::sync::atomic::Ordering::SeqCst);
     }
+}
+
+fn c_is_q(op: &str) -> bool {
+    op.starts_with('Q')
 }
 
 fn run_one(line: &str) -> String {
@@ -50,12 +55,15 @@ fn run_one(line: &str) -> String {
         let mut w = w;
         let mut body = Some(resp.into_body());
         let cw = Arc::new(CountWaker(std::sync::atomic::AtomicUsize::new(0)));
+        let cw_b = Arc::new(CountWaker(std::sync::atomic::AtomicUsize::new(0)));
         let waker = std::task::Waker::from(cw.clone());
-        let mut cx = Context::from_waker(&waker);
+        let waker_b = std::task::Waker::from(cw_b.clone());
         let mut res: Vec<String> = Vec::new();
         for op in &ops {
             let (c, arg) = op.split_at(1);
             let wakes_before = cw.0.load(std::sync::atomic::Ordering::SeqCst);
+            let wakes_before_b = cw_b.0.load(std::sync::atomic::Ordering::SeqCst);
+            let mut cx = Context::from_waker(if c_is_q(op) { &waker_b } else { &waker });
             let mut r = match c {
                 "W" => match w.as_mut() {
                     Some(w) => match w.write(&unhex(arg)) { Ok(k) => format!("w{}", k), Err(_) => "we".into() },
@@ -72,7 +80,7 @@ fn run_one(line: &str) -> String {
                 "A" => { if let Some(w) = w.as_mut() { w.abort("scripted abort".into()); } "a".into() }
                 "X" => { w = None; "x".into() }
                 "R" => { body = None; "r".into() }
-                "P" => match body.as_mut() {
+                "P" | "Q" => match body.as_mut() {
                     Some(b) => {
                         let h = b.size_hint();
                         let eos = b.is_end_stream();
@@ -90,8 +98,9 @@ fn run_one(line: &str) -> String {
                 _ => panic!("bad op {}", op),
             };
             let wakes = cw.0.load(std::sync::atomic::Ordering::SeqCst) - wakes_before;
-            if wakes > 0 {
-                r.push_str(&format!("!{}", wakes));
+            let wakes_b = cw_b.0.load(std::sync::atomic::Ordering::SeqCst) - wakes_before_b;
+            if wakes > 0 || wakes_b > 0 {
+                r.push_str(&format!("!{}/{}", wakes, wakes_b));
             }
             res.push(r);
             *out2.lock().unwrap() = format!("{}{}", s, res.join(","));
